@@ -4,6 +4,11 @@ manifest is always valid)."""
 import json, sys
 
 CHECKS = {
+ "C19": dict(
+   text="Thin structural check of the Merkle tree: builder, prover and verifier agree on how a node is paired with its sibling (left-first hashing, odd index takes the element before it, even the one after, last node of an odd level pairs with itself); the three level walks step with the same expressions (ceil(size/2), offset + size, index halving; loop bounds consistent); the prover reads the right neighbour only under the strict in-level test; ComputeTree and SetTree establish the same fields, a path has levels-1 elements, the root is the last element. Arithmetic is compared after normalising equivalent spellings (x/2, x>>1, (x-x&1)/2).",
+   note="Does not decide that every path verifies for every leaf count and index, nor that it fails for another leaf: that is index arithmetic over runtime values and is better served by exhaustive enumeration (another technique family). What is decided are agreement conditions between the three routines, each necessary for honest paths to verify.",
+   technique="sibling-implementation agreement with arithmetic normalisation, strict-guard dominance on go/ssa",
+   ref="DESIGN.md section 5 C19 / section 6"),
  "C15": dict(
    text="Memory-safety discipline of the decoders, decided for every function in the decoder call closure: each index, slice, fixed-size decode destination and fixed-width read is discharged by a guard from a table of sound idioms holding on every feasible path, or reported; no explicit panic is reachable (six named exceptions, each with its precondition); pointers decoded from the wire are dereferenced only after a nil test; the recursive decoders advance their cursor before recursing.",
    note="Does not decide the behaviour of the CBOR and msgp libraries on hostile input (third-party). An idiom outside the guard table is reported as a violation (possible false alarm, by design). Termination is decided only as 'one element consumed per recursive call'.",
@@ -102,7 +107,6 @@ CHECKS = {
 }
 
 NOT_APPLICABLE = {
- "C19": "position arithmetic over runtime n/idx; no structural necessary condition worth a static rule (DESIGN.md section 6)",
 }
 
 ALL = ["C%02d" % i for i in range(1, 21)]
